@@ -796,7 +796,7 @@ func TestFilepath(t *testing.T) {
 }
 
 func TestAEAD(t *testing.T) {
-	contract(t, "crypto/cipher.AEAD (AES-GCM) Seal/Open/NonceSize with nil additional data; io.ReadFull")
+	contract(t, "crypto/cipher.AEAD (AES-GCM) Seal/Open/NonceSize with nil additional data; io.ReadFull; aes.NewCipher key lengths and key dependence")
 	r := rng()
 	key := make([]byte, 32)
 	r.Read(key)
@@ -849,6 +849,34 @@ func TestAEAD(t *testing.T) {
 		}
 	}
 	count("aead", n)
+	// aes.NewCipher accepts keys of 16, 24 and 32 bytes only; the cipher depends on every key byte
+	// (two keys differing in one byte seal differently); DecodeString is a function of its text.
+	kn := 0
+	for l := 0; l <= 80; l++ {
+		k := make([]byte, l)
+		r.Read(k)
+		b, err := aes.NewCipher(k)
+		if (err == nil) != (l == 16 || l == 24 || l == 32) {
+			t.Fatalf("aes.NewCipher accepts/rejects a key of %d bytes", l)
+		}
+		kn++
+		if err != nil {
+			continue
+		}
+		g1, _ := cipher.NewGCM(b)
+		nonce := make([]byte, g1.NonceSize())
+		for j := 0; j < l; j++ {
+			k2 := slices.Clone(k)
+			k2[j] ^= 0x40
+			b2, _ := aes.NewCipher(k2)
+			g2, _ := cipher.NewGCM(b2)
+			if bytes.Equal(g1.Seal(nil, nonce, []byte("x"), nil), g2.Seal(nil, nonce, []byte("x"), nil)) {
+				t.Fatalf("key byte %d of %d does not matter", j, l)
+			}
+			kn++
+		}
+	}
+	count("aes-key-lengths", kn)
 }
 
 func TestGhostFileSystem(t *testing.T) {
